@@ -1285,42 +1285,42 @@ CLAUSES = [
                       'kind_binedge': 0.07, 'on_face': 0.2, 'pos_readonly_stored': 0.09, 'pos_noncontiguous_stored': 0.04,
                       'pos_sequence': 0.035, 'scale_1': 0.25, 'scaled': 0.2, 'scale_1e-10': 0.06, 'scale_le_1e-8': 0.12,
                       'scale_large': 0.04, 'exact_scaled': 0.025,
-                      # cross-pollination round (half of the observed shares)
-                      'kind_near': 0.055, 'near_cut': 0.08, 'near_cut_le_1e-6': 0.05, 'near_cut_inside': 0.03, 'near_cut_outside': 0.05,
-                      'near_cut_image': 0.022, 'near_coincident': 0.024, 'near_face_le_1e-6': 0.03, 'decades': 0.008, 'tiny_tilt': 0.026,
-                      'sym': 0.12, 'sym_negdiag': 0.06, 'sym_upper': 0.011, 'sym_mixed': 0.027, 'lefthanded': 0.05,
-                      'pos_bigendian': 0.045, 'pos_narrow_int': 0.005, 'pos_narrow_float': 0.008, 'cutoff_narrow_float': 0.045,
-                      'cutoff_narrow_int': 0.004, 'sizes_narrow_int': 0.11},
+                      # cross-pollination round (below half of the lowest share seen at seeds 1-4, runs cut short by the wall budget included)
+                      'kind_near': 0.047, 'near_cut': 0.065, 'near_cut_le_1e-6': 0.037, 'near_cut_inside': 0.023, 'near_cut_outside': 0.043,
+                      'near_cut_image': 0.017, 'near_coincident': 0.024, 'near_face_le_1e-6': 0.03, 'decades': 0.008, 'tiny_tilt': 0.02,
+                      'sym': 0.1, 'sym_negdiag': 0.047, 'sym_upper': 0.01, 'sym_mixed': 0.02, 'lefthanded': 0.038,
+                      'pos_bigendian': 0.036, 'pos_narrow_int': 0.0034, 'pos_narrow_float': 0.007, 'cutoff_narrow_float': 0.04,
+                      'cutoff_narrow_int': 0.0028, 'sizes_narrow_int': 0.094},
            desc='every list equals the independent reference {j != i : shortest of the 27 candidates < cutoff}; strictly '
                 'ascending, no self entry, symmetric, coord = length = first column; for every input form'),
     Clause('sizes', oracle_sizes, sizes_cases, quick=1700, thorough=55000,
            min_share={'nt': 0.15, 'grew_twice': 0.1, 'size_one': 0.2, 'pos_readonly_stored': 0.09,
                       'scale_1': 0.25, 'scaled': 0.2, 'scale_1e-10': 0.06, 'scale_le_1e-8': 0.11, 'scale_large': 0.04,
-                      'pos_bigendian': 0.04, 'sizes_narrow_int': 0.15},
+                      'pos_bigendian': 0.03, 'sizes_narrow_int': 0.1},
            desc='identical lists for default and drawn initialsize/deltasize (both, and each alone), and for the default again afterwards'),
     Clause('file', oracle_file, file_cases, quick=1700, thorough=38000,
            min_share={'nt': 0.3, 'ragged': 0.15, 'has_empty_row': 0.25, 'two_digit_ids': 0.08, 'pos_readonly_stored': 0.07,
                       'scale_1': 0.25, 'scaled': 0.2, 'scale_1e-10': 0.06, 'scale_le_1e-8': 0.12, 'scale_large': 0.04,
-                      'pos_bigendian': 0.04, 'sizes_narrow_int': 0.12},
+                      'pos_bigendian': 0.034, 'sizes_narrow_int': 0.09},
            desc='dump then NeighborList(model=path | open binary stream | BytesIO | content string) and System.neighborlist(model=): '
                 'identical lists; second dump identical text'),
     Clause('api', oracle_api, api_cases, quick=1500, thorough=22000,
            min_share={'nt': 0.28, 'via_function': 0.12, 'via_build': 0.1, 'positional_arguments': 0.17, 'pos_readonly_stored': 0.07,
                       'scale_1': 0.25, 'scaled': 0.2, 'scale_1e-10': 0.06, 'scale_le_1e-8': 0.12, 'scale_large': 0.04,
-                      'pos_bigendian': 0.04, 'sizes_narrow_int': 0.12},
+                      'pos_bigendian': 0.037, 'sizes_narrow_int': 0.09},
            desc='System.neighborlist, nlist(), NeighborList.build (positional and keyword) give the same lists as NeighborList(system=, cutoff=); system untouched'),
     Clause('history', oracle_history, history_cases, quick=1200, thorough=30000,
            min_share={'nt': 0.17, 'replaced_after_read': 0.28, 'replaced_other_natoms': 0.15, 'read_before_first_step': 0.25,
                       'op_load': 0.15, 'op_edit': 0.13, 'op_selfload': 0.06, 'unjudged_step': 0.09, 'pos_readonly_stored': 0.12,
                       'mixed_scales': 0.25, 'scaled': 0.3, 'scale_1e-10': 0.1, 'scale_le_1e-8': 0.19, 'scale_large': 0.08,
-                      'pos_bigendian': 0.09, 'sizes_narrow_int': 0.18},
+                      'pos_bigendian': 0.075, 'sizes_narrow_int': 0.15},
            desc='one NeighborList object through build / load / dump-load / in-place system edits, read in varying orders: after every '
                 'step it equals the independent reference for what it was last given; an untouched second list stays as it was'),
     Clause('ledger', oracle_ledger, ledger_cases, quick=1100, thorough=30000,
-           min_share={'nt': 0.35, 'ledger': 0.45, 'ledger_mixed_counts': 0.19, 'ledger_ge_4': 0.19, 'ledger_after_caller_change': 0.13,
-                      'loaded_different_alive': 0.03, 'unread_then_mutated': 0.024, 'again_after_overwrite': 0.14, 'overwrote_array': 0.05,
-                      'overwrote_object': 0.12, 'edit_handed': 0.045, 'edit_handed_aliased': 0.033, 'repeated_call': 0.07, 'op_rebuild': 0.065,
-                      'read_at_the_end': 0.18, 'pos_bigendian': 0.07, 'pos_readonly_stored': 0.12, 'scaled': 0.3},
+           min_share={'nt': 0.3, 'ledger': 0.4, 'ledger_mixed_counts': 0.14, 'ledger_ge_4': 0.18, 'ledger_after_caller_change': 0.1,
+                      'loaded_different_alive': 0.021, 'unread_then_mutated': 0.023, 'again_after_overwrite': 0.085, 'overwrote_array': 0.028,
+                      'overwrote_object': 0.06, 'edit_handed': 0.038, 'edit_handed_aliased': 0.032, 'repeated_call': 0.053, 'op_rebuild': 0.042,
+                      'read_at_the_end': 0.14, 'pos_bigendian': 0.07, 'pos_readonly_stored': 0.1, 'scaled': 0.27},
            desc='everything handed out by nlist() / NeighborList / System.neighborlist / a file for two systems is judged by the reference when first '
                 'read and compared bit for bit (documented part) with a copy after every later call; the caller overwrites what it handed in '
                 'and what it was handed: no other result moves, an unread object describes the system as it was, the same call again is right'),
